@@ -16,7 +16,8 @@ ANCHORS = ['bip39:mnemonic_from_entropy', 'bip39:mnemonic_from_entropy_bits', 'b
 RULE = ("per allowed size: all-zero, all-one, walking-one and walking-zero over EVERY bit position (exhaustive, 2x960), "
         "1..ENT/8-1 leading zero bytes, checksum-straddling patterns, random; rejection: every other byte length 0..64, odd "
         "hex length, whitespace at start/middle/end, 0x prefix, underscores; word list compared element-wise with a "
-        "digest-pinned copy; distinct = distinct (monitor, case) digests")
+        "digest-pinned copy; distinct = distinct (monitor, case) digests"
+        " EXTENSIONS: + helper queries about the illegal size before the rejection, every rejection repeated three times")
 LEVEL_TEXT = ("Every mnemonic_from_entropy / from_entropy_hex / mnemonic_from_entropy_bits call is judged by an independent "
               "integer-shift encoder AND an independent decoder (word -> 11-bit index -> entropy||checksum); sizes outside "
               "{16,20,24,28,32} bytes must raise. The embedded list must equal the official list (SHA-256 pinned).")
